@@ -83,10 +83,22 @@ def run_companion(repo, companion_file, tests, seed=1, cases=None, timeout=420, 
             cmd = ["cargo", "test", "--offline", "-p", package, "--test", name]
         cmd += ["--"] + list(tests) + ["--nocapture", "--test-threads", "4"]
         res["cmd"] = "CARGO_TARGET_DIR=work/native/target " + " ".join(cmd)
+        # own process group, so that a timeout also kills the test binary cargo started (not only cargo)
+        pp = subprocess.Popen(cmd, cwd=SRC, env=env, stdout=subprocess.PIPE, stderr=subprocess.PIPE, text=True,
+                              start_new_session=True)
         try:
-            p = subprocess.run(cmd, cwd=SRC, env=env, capture_output=True, text=True, timeout=timeout)
-            out = p.stdout + "\n" + p.stderr
+            so, se = pp.communicate(timeout=timeout)
+            out = so + "\n" + se
+            p = pp
         except subprocess.TimeoutExpired:
+            try:
+                os.killpg(pp.pid, 9)
+            except Exception:      # noqa
+                pass
+            try:
+                pp.communicate(timeout=10)
+            except Exception:      # noqa
+                pass
             res["out_tail"] = "companion timed out"
             res["wall_s"] = time.time() - t0
             return res
